@@ -62,6 +62,16 @@ def _get_all_connection_axes(connections, facedim):
     return list(dict.fromkeys(all_axes))
 
 
+def _is_numeric_scalar(value) -> bool:
+    try:
+        arr = np.asarray(value)
+    except Exception:
+        return False
+    return arr.ndim == 0 and (
+        np.issubdtype(arr.dtype, np.number) or np.issubdtype(arr.dtype, np.bool_)
+    )
+
+
 def _strip_all_coords(obj: xr.DataArray):
     if isinstance(obj, dict):
         return {k: _strip_all_coords(v) for k, v in obj.items()}
@@ -408,6 +418,20 @@ def pad(
     fill_value = grid._complete_user_kwargs_using_axis_defaults(
         fill_value, "fill_value"
     )
+
+    # Refuse unknown boundary words and non-numeric fill values here, whether or not this
+    # particular call ends up consulting them (zero widths, a rule other than 'fill', another axis)
+    for axname, ax_padding in padding.items():
+        if ax_padding not in _XGCM_BOUNDARY_KWARG_TO_XARRAY_PAD_KWARG:
+            raise ValueError(
+                f"boundary must be one of {list(_XGCM_BOUNDARY_KWARG_TO_XARRAY_PAD_KWARG)}, "
+                f"but got {ax_padding!r} for axis {axname}"
+            )
+    for axname, ax_fill_value in fill_value.items():
+        if ax_fill_value is not None and not _is_numeric_scalar(ax_fill_value):
+            raise TypeError(
+                f"fill value must be an integer or a float, but got {ax_fill_value!r} for axis {axname}"
+            )
 
     # Exit without padding if all widths are zero
     if padding_width is None or all(
